@@ -1,6 +1,7 @@
-import RV.Proofs.PersistRT3
+import RV.Proofs.PersistLoad
 import RV.Proofs.PersistTable
 import RV.Gen.C05Descriptors
+import RV.Gen.C05Reads
 /-
   C05 — a saved simulation restores bit-for-bit; saving a restored simulation reproduces the content.
 
@@ -16,6 +17,7 @@ import RV.Gen.C05Descriptors
 set_option linter.unusedVariables false
 namespace RV.Persist
 open RV.Gen.C05
+open RV.Gen
 
 /-! ### codec theorems (all tables) -/
 
@@ -51,7 +53,53 @@ theorem c05_restored_member {psz : Nat} {sp : Special} {tbl : List Desc} (ok : T
   rw [decode_encode ok s init fp hwf]
   exact restore_mem_written init s d hd d.mem (by simp [memWritten, hs])
 
+/-- **the restored simulation STRUCT** (not the stream): `load` = the reader loop followed by the loader's fix-ups
+    (input.c:205-229: back pointers re-linked, `N_allocated := N`, `c`/`ap` cleared, WHFast512 constants flagged).
+    For every table with `TableOK`/`FixOK`, every well-formed source `s`, every fresh `init` and load address `self`:
+    no warning but the callback reminder; every simple persisted member equals the source's; for every array row
+    with content the element counter is re-derived from the payload size and equals the source's and the contents
+    are equal — the particle array and the variational configurations up to their pointer members, which are
+    cleared / point to the restored simulation (`fixParticles`, `fixVarCfg` only overwrite pointer slots);
+    REB_DP7 rows: all seven arrays; fixed-size pointer rows; `N_allocated = N`; recalculation flag set.
+    (The tree is a cache outside the persisted projection; its re-building is checked on the real code.) -/
+theorem c05_load_restores_struct (psz : Nat) (sp : Special) (specs : List CmpSpec) (tbl : List Desc) (pl vl : ElemLayout)
+    (pSim vSim self : Nat) (init s : Sim) (fp : Bool)
+    (ok : TableOK psz sp tbl) (fok : FixOK psz sp specs tbl pl pSim) (hwf : WF psz tbl s)
+    (hAC : sp.nAllocMem ≠ sp.recalcMem) (hNA : sp.nMem ≠ sp.nAllocMem) (hNC : sp.nMem ≠ sp.recalcMem) :
+    let y := (load psz sp tbl pl vl pSim vSim self init (encode psz sp tbl s fp)).1
+    (load psz sp tbl pl vl pSim vSim self init (encode psz sp tbl s fp)).2 = (if fp then [.pointers] else []) ∧
+    (∀ d ∈ live tbl, ∀ sz, simpleSize psz d.dtype = some sz → y.mem d.mem = s.mem d.mem) ∧
+    (∀ d ∈ live tbl, (d.dtype = .pointer ∨ d.dtype = .pointerAligned) → fieldSize s d ≠ 0 →
+        y.mem d.nMem = s.mem d.nMem ∧
+        (d.mem ≠ sp.particlesMem → d.mem ≠ sp.varCfgMem → y.heap d.mem = s.heap d.mem) ∧
+        (d.mem = sp.particlesMem → y.heap d.mem = (s.heap d.mem).map (fixParticles pl pSim self)) ∧
+        (d.mem = sp.varCfgMem → y.heap d.mem = (s.heap d.mem).map (fixVarCfg vl vSim self))) ∧
+    (∀ d ∈ live tbl, d.dtype = .dp7 → fieldSize s d ≠ 0 →
+        y.mem d.nMem = s.mem d.nMem ∧ ∀ k, k < 7 → y.heap (d.mem + k) = s.heap (d.mem + k)) ∧
+    (∀ d ∈ live tbl, d.dtype = .pointerFixed → (s.heap d.mem).isSome = true → y.heap d.mem = s.heap d.mem) ∧
+    y.mem sp.nAllocMem = y.mem sp.nMem ∧ y.mem sp.recalcMem = encLE 4 1 :=
+  load_restores psz sp specs tbl pl vl pSim vSim self init s fp ok fok hwf hAC hNA hNC
+
+/-- the fix-ups only overwrite pointer members: outside the pointer slots of reb_particle the fixed-up particle
+    array is byte-for-byte the restored one, and it has the same length -/
+theorem c05_fixups_touch_pointers_only (pl : ElemLayout) (pSim self : Nat) (b : Bytes) (i : Nat)
+    (h : slotHit (ptrSlots pl) (i % pl.size) = false) (h2 : slotHit [(pSim, 8)] (i % pl.size) = false) :
+    (fixParticles pl pSim self b)[i]? = b[i]? ∧ (fixParticles pl pSim self b).length = b.length := by
+  unfold fixParticles
+  refine ⟨?_, by simp [fillSlots_length]⟩
+  rw [fillSlots_getElem?, fillSlots_getElem?, h, h2]
+  cases b[i]? <;> simp
+
 /-! ### the current table (regenerated every run; decided by the kernel) -/
+
+/-- side conditions of `c05_load_restores_struct` for the current table: the members the fix-ups write
+    (`N_allocated`, `ri_whfast512.recalculate_constants`) are not persisted and differ from `N`; the particle array
+    and var_config are persisted by one pointer row each; no REB_DP7 / fixed-size row aliases them -/
+theorem c05_table_fix_ok :
+    FixOK particleSize special cmpSpecs table elem_reb_particle particleSimOff ∧
+    special.nAllocMem ≠ special.recalcMem ∧ special.nMem ≠ special.nAllocMem ∧ special.nMem ≠ special.recalcMem :=
+  ⟨fixOK_of_b _ _ _ _ _ _ (by decide +kernel), by decide +kernel, by decide +kernel, by decide +kernel⟩
+
 
 /-- the extraction found as many items as it says (an extraction that silently finds less fails here) -/
 theorem c05_table_counts :
@@ -99,6 +147,39 @@ theorem c05_table_members_unique : nodupNat (dataMems particleSize table) = true
     overlap -/
 theorem c05_table_elems :
     elemSizesOK table rowElems = true ∧ (rowElems.all (fun p => elemOK p.2)) = true := by decide +kernel
+
+/-! ### which code reads not-persisted state (generated read sets, src/*.c) -/
+
+/-- an access (translation unit, member) is fine if the member is persisted, or cannot influence the trajectory,
+    or the unit owns the member, or the access was reviewed (`allowed`), or it is a recorded defect (`findingRows`) -/
+def accessClassified (a : Nat × Nat) : Bool :=
+  C05Reads.persistedMembers.contains a.2 || C05Reads.unrestrictedMembers.contains a.2 || C05Reads.owners.contains a ||
+  C05Reads.allowed.contains a || C05Reads.findingRows.contains a
+
+/-- **read sets**: every access of every translation unit of src/ to a member of reb_simulation / reb_integrator_*
+    (over-approximated by walking the `->`/`.` chains of variables declared as simulation / integrator pointers) that
+    is neither persisted nor of a harmless class is owned, reviewed or a recorded defect.  A new access to carried-over, not-persisted state from a unit that does not own it fails this
+    theorem.  Statement at full strength (no `findingRows`) is false on the current tree: C05-N4, N9, N11, N6/N7. -/
+theorem c05_reads_classified : C05Reads.accesses.all accessClassified = true := by decide +kernel
+
+/-- full-strength form: the accesses that are neither owned, reviewed nor harmless are exactly recorded defects -/
+theorem c05_reads_classified_partial :
+    (C05Reads.accesses.filter (fun a => !(C05Reads.persistedMembers.contains a.2 || C05Reads.unrestrictedMembers.contains a.2 ||
+      C05Reads.owners.contains a || C05Reads.allowed.contains a))) ⊆ C05Reads.findingRows := by decide +kernel
+
+/-- the review lists are not stale (every entry is an access that exists), disjoint, and the extraction found as
+    much as it says -/
+theorem c05_reads_lists_fresh :
+    C05Reads.allowed.all (C05Reads.accesses.contains ·) = true ∧ C05Reads.findingRows.all (C05Reads.accesses.contains ·) = true ∧
+    C05Reads.allowed.all (fun a => !C05Reads.findingRows.contains a) = true ∧
+    C05Reads.accesses.length = C05Reads.accessCount ∧ C05Reads.tuNames.length = C05Reads.tuCount ∧
+    100 ≤ C05Reads.accessCount ∧ 500 ≤ C05Reads.accessCountAll ∧ 25 ≤ C05Reads.tuCount ∧ C05Reads.allowed.length = C05Reads.allowedCount ∧
+    C05Reads.findingRows.length = C05Reads.findingCount := by decide +kernel
+
+/-- the read-set table and the descriptor table agree on which members are persisted -/
+theorem c05_reads_persisted_consistent :
+    members.all (fun m => C05Reads.persistedMembers.contains m.idx == persisted particleSize table m.idx) = true := by
+  decide +kernel
 
 /-! ### non-vacuity: a small table and a simulation satisfying every hypothesis -/
 
